@@ -175,21 +175,36 @@ Definition push_fails (lim : option N) (new_len : N) : bool :=
    the flags (DO) are not copied *)
 Definition min_opt (o : optrec) : optrec := mkOpt (o_size o) ((o_ttl o / 65536) * 65536) [].
 
-(* mandatory.rs truncate, the rebuild: header copied, questions pushed (no push
-   limit yet), then set_push_limit(max_response_size + 1) and the response's
-   OPT pushed, on failure the OPT without options, on failure no OPT. *)
-Definition rebuild (lim : option N) (m : msg) : outcome msg :=
-  let base := mkMsg (m_id m) (m_b2 m) (m_b3 m) (m_qs m) [] [] [] in
-  if 65535 <? mlen base then Err 2          (* TruncateError::PushFailure *)
-  else match first_opt (m_ar m) with
-       | None => Ok base
-       | Some o =>
-           let with_o o' := mkMsg (m_id m) (m_b2 m) (m_b3 m) (m_qs m) [] [] [RROpt o'] in
-           if push_fails lim (mlen (with_o o)) then
-             if push_fails lim (mlen (with_o (min_opt o))) then Ok base
-             else Ok (with_o (min_opt o))
-           else Ok (with_o o)
-       end.
+(* the question loop of the rebuild.  Limit-aware form (fq): every push runs
+   under the push limit, LimitExceeded ends the loop (the remaining questions
+   are left out), any other error (ShortBuf past 65535) is a TruncateError.
+   Older form: `target.push(rr?)?` with no limit set yet. *)
+Fixpoint push_questions (lim : option N) (pos : N) (qs : list question) : outcome (list question) :=
+  match qs with
+  | [] => Ok []
+  | q :: t =>
+      let n := pos + len (wire_q q) in
+      if 65535 <? n then Err 2
+      else if match lim with Some l => limit_hit l n | None => false end then Ok []
+      else do r <- push_questions lim n t; Ok (q :: r)
+  end.
+
+(* mandatory.rs truncate, the rebuild: header copied, questions pushed, then the
+   response's OPT, on failure the OPT without options, on failure no OPT; the
+   push limit is max_response_size + 1, set before the questions (fq) or only
+   before the OPT. *)
+Definition rebuild (fq : bool) (lim : option N) (m : msg) : outcome msg :=
+  do qs <- push_questions (if fq then lim else None) 12 (m_qs m);
+  let base := mkMsg (m_id m) (m_b2 m) (m_b3 m) qs [] [] [] in
+  match first_opt (m_ar m) with
+  | None => Ok base
+  | Some o =>
+      let with_o o' := mkMsg (m_id m) (m_b2 m) (m_b3 m) qs [] [] [RROpt o'] in
+      if push_fails lim (mlen (with_o o)) then
+        if push_fails lim (mlen (with_o (min_opt o))) then Ok base
+        else Ok (with_o (min_opt o))
+      else Ok (with_o o)
+  end.
 
 Definition rebuild_limit (max : N) : option N :=
   if trunc_rebuild_has_push_limit then Some (max + trunc_rebuild_limit_slack) else None.
@@ -197,35 +212,88 @@ Definition rebuild_limit (max : N) : option N :=
 Definition over_limit (l max : N) : bool :=
   if trunc_cmp_is_gt then max <? l else max <=? l.
 
-Definition truncate_gen (fx udp req_has_opt : bool) (hint : option N) (m : msg) : outcome msg :=
+Definition truncate_gen (fx fq udp req_has_opt : bool) (hint : option N) (m : msg) : outcome msg :=
   if udp then
     if over_limit (mlen m) (trunc_max_gen fx req_has_opt hint) then
-      rebuild (rebuild_limit (trunc_max_gen fx req_has_opt hint)) (mkMsg (m_id m) (set_tc (m_b2 m)) (m_b3 m) (m_qs m) (m_an m) (m_ns m) (m_ar m))
+      rebuild fq (rebuild_limit (trunc_max_gen fx req_has_opt hint))
+        (mkMsg (m_id m) (set_tc (m_b2 m)) (m_b3 m) (m_qs m) (m_an m) (m_ns m) (m_ar m))
     else Ok m
   else Ok m.
 
-(* request: id, octet 2 of the header (QR opcode AA TC RD), questions, OPT *)
+(* request: id, octet 2 of the header (QR opcode AA TC RD), the questions that
+   parse (up to the first one that does not), the first OPT's payload size *)
 Record request := mkReq { rq_id : N; rq_b2 : N; rq_qs : list question; rq_client : option N }.
 
-(* mk_error_response(request, SERVFAIL): start_error + an OPT record *)
-Definition servfail (rq : request) : msg :=
-  mkMsg (rq_id rq) (N.setbit (N.land (rq_b2 rq) 121) 7) 2 (rq_qs rq) [] [] [RROpt empty_opt].
+(* util.rs mk_error_response(request, rcode): id, QR, opcode, RD and rcode in
+   the header, the request's questions (all of them via start_error, or at most
+   the first one: eq), always an OPT record carrying the upper rcode bits *)
+Definition error_response_gen (eq : bool) (rq : request) (rcode : N) : msg :=
+  mkMsg (rq_id rq) (N.setbit (N.land (rq_b2 rq) 121) 7) (rcode mod 16)
+        (if eq then firstn 1 (rq_qs rq) else rq_qs rq) [] []
+        [RROpt (mkOpt 0 ((rcode / 16) * 16777216) [])].
 
 (* MandatoryMiddlewareSvc::postprocess *)
-Definition mandatory_post_gen (fx udp : bool) (rq : request) (hint : option N) (m : msg) : msg :=
-  let m1 := match truncate_gen fx udp (is_some (rq_client rq)) hint m with
+Definition mandatory_post_gen (fx fq eq udp : bool) (rq : request) (hint : option N) (m : msg) : msg :=
+  let m1 := match truncate_gen fx fq udp (is_some (rq_client rq)) hint m with
             | Ok m' => m'
-            | _ => servfail rq
+            | _ => error_response_gen eq rq rc_servfail
             end in
   let b2 := set_bit_to (N.setbit (m_b2 m1) 7) 0 (N.testbit (rq_b2 rq) 0) in
   mkMsg (rq_id rq) b2 (m_b3 m1) (m_qs m1) (m_an m1) (m_ns m1) (m_ar m1).
 
 (* the whole UDP response path for one service response:
    Edns preprocess (hint) ... service ... Edns postprocess, Mandatory postprocess *)
-Definition udp_response_gen (fx : bool) (rq : request) (cfg : option N) (svc_resp : msg) : outcome msg :=
+Definition udp_response_gen (fx fq eq : bool) (rq : request) (cfg : option N) (svc_resp : msg) : outcome msg :=
   do h <- hint_after_edns (rq_client rq) cfg;
-  Ok (mandatory_post_gen fx true rq h (edns_post (is_some (rq_client rq)) svc_resp)).
-Definition udp_response := udp_response_gen trunc_no_opt_is_min.
+  Ok (mandatory_post_gen fx fq eq true rq h (edns_post (is_some (rq_client rq)) svc_resp)).
+Definition udp_response := udp_response_gen trunc_no_opt_is_min trunc_questions_limited err_resp_first_question_only.
+
+(* ---- the datagram server as a whole: which path answers a request --------- *)
+
+(* the OPT records of the request as EdnsMiddlewareSvc::preprocess sees them *)
+Inductive opt_state :=
+| OptNone                          (* no OPT (or the record sections do not parse) *)
+| OptOne (size version : N)
+| OptDup (size : N)                (* more than one OPT; the first one parses *)
+| OptBad.                          (* the first OPT does not parse *)
+
+(* x_qd: QDCOUNT of the header (x_qs may be shorter when a question does not parse) *)
+Record xreq := mkX { x_id : N; x_b2 : N; x_qd : N; x_qs : list question; x_opt : opt_state }.
+
+Definition x_client (x : xreq) : option N :=
+  match x_opt x with OptOne s _ => Some s | OptDup s => Some s | _ => None end.
+Definition x_base (x : xreq) : request := mkReq (x_id x) (x_b2 x) (x_qs x) (x_client x).
+Definition x_opcode (x : xreq) : N := (x_b2 x / 8) mod 16.
+
+Inductive svc_result := SvcOk (m : msg) | SvcErr (rcode : N) | SvcNone.
+
+(* what DgramServer + Mandatory(strict) + Edns + service send back for one
+   datagram (None: nothing).  Error responses made by the transport (QR = 1,
+   service error) do not pass through the middleware. *)
+Definition udp_server_gen (fx fq eq : bool) (x : xreq) (cfg : option N) (svc : svc_result)
+  : outcome (option msg) :=
+  let rq := x_base x in
+  let has_opt := is_some (x_client x) in
+  let post h m := mandatory_post_gen fx fq eq true rq h m in
+  if N.testbit (x_b2 x) 7 then Ok (Some (error_response_gen eq rq rc_formerr))
+  else if x_opcode x =? opcode_iquery then Ok (Some (post cfg (error_response_gen eq rq rc_notimp)))
+  else if (x_opcode x =? opcode_query) && (qdcount_max <? x_qd x) then
+    Ok (Some (post cfg (error_response_gen eq rq rc_formerr)))
+  else
+    let edns_err rc := Ok (Some (post cfg (edns_post has_opt (error_response_gen eq rq rc)))) in
+    let serve :=
+      match svc with
+      | SvcOk m => do h <- hint_after_edns (x_client x) cfg; Ok (Some (post h (edns_post has_opt m)))
+      | SvcErr rc => Ok (Some (error_response_gen eq rq rc))
+      | SvcNone => Ok None
+      end in
+    match x_opt x with
+    | OptDup _ => edns_err rc_formerr
+    | OptBad => edns_err rc_formerr
+    | OptOne _ v => if edns_version_max <? v then edns_err rc_badvers else serve
+    | OptNone => serve
+    end.
+Definition udp_server := udp_server_gen trunc_no_opt_is_min trunc_questions_limited err_resp_first_question_only.
 
 (* ---- a parser for what a truncated response must look like: header,
    questions with uncompressed names, at most one record which is an OPT ---- *)
@@ -425,6 +493,26 @@ Definition c16_udp (id b2 : N) (labels : list N) (qtype : N) (client cfg : optio
   let rq := mk_request id b2 labels qtype client in
   do m <- udp_response rq cfg (mk_response rq rb2 rb3 n_an an_len n_ar ar_len opt);
   Ok (observe m).
+
+(* the server as a whole: request with nq copies of one question, QDCOUNT qd *)
+Definition mk_xreq (id b2 qd nq : N) (labels : list N) (qtype : N) (opt : opt_state) : xreq :=
+  mkX id b2 qd (repeat (mkQ (mk_name labels) qtype 1) (N.to_nat nq)) opt.
+
+Definition observe2 (m : msg) :=
+  (observe m, m_b3 m, match first_opt (m_ar m) with Some o => o_ttl o | None => 0 end).
+
+(* svc: None = no response, Some (inl params) = a response, Some (inr rcode) = service error *)
+Definition c16_srv (id b2 qd nq : N) (labels : list N) (qtype : N) (opt : opt_state) (cfg : option N)
+  (svc : option ((N * N * N * N * N * N * option (N * N)) + N)) :=
+  let x := mk_xreq id b2 qd nq labels qtype opt in
+  let sr := match svc with
+            | None => SvcNone
+            | Some (inr rc) => SvcErr rc
+            | Some (inl (rb2, rb3, n_an, an_len, n_ar, ar_len, o)) =>
+                SvcOk (mk_response (x_base x) rb2 rb3 n_an an_len n_ar ar_len o)
+            end in
+  do r <- udp_server x cfg sr;
+  Ok (match r with Some m => Some (observe2 m) | None => None end).
 
 Definition c16_frame_out (m : bytes) : outcome bytes := frame_out m.
 Definition c16_conn (chunks : list bytes) : bool * list conn_event :=
